@@ -285,7 +285,7 @@ func TestVerifWireAPI(t *testing.T) {
 		}
 		deliver("", wire)
 		if r.wantMut(row) && (f["body"] == "exact" || f["body"] == "nolength") {
-			for _, m := range vwMutations(wire, r.rng, r.maxTrunc, r.nflip) {
+			for _, m := range r.muts(row, wire) {
 				deliver(fmt.Sprintf("%s@%d", m.Kind, m.Pos), m.Raw)
 			}
 		}
